@@ -153,7 +153,7 @@ def analyse(sh, items):
         for rule, loc, detail in probs:
             if loc == 'ADDR':
                 scaled = '*' in rt
-                key = 'ADDR/%s/%s/%s' % ('a16' if 0x67 in ins.prefix else 'a32', 'scaled' if scaled else 'unscaled', rule)
+                key = 'ADDR/%s%s/%s/%s' % ('a16' if 0x67 in ins.prefix else 'a32', '+o16' if 0x66 in ins.prefix else '', 'scaled' if scaled else 'unscaled', rule)
                 if '#' in mname or mname in ('movq', 'pmovmskb'):
                     key += '/mmx-sse-operand'
                 elif mname in ('les', 'lds', 'lfs', 'lgs', 'lss'):
